@@ -180,9 +180,13 @@ impl Acc {
             run.outcome_n(&k, n);
         }
         for (class, e) in std::mem::take(&mut self.viols) {
+            // The run keeps the shortest serialised witness of a class and has no "add n" call:
+            // the remaining occurrences are reported with a filler that is longer than the
+            // minimal witness, so that it can never replace it.
+            let filler = Value::String("-".repeat(vpc::serde_json::to_string_pretty(&e.witness).map(|s| s.len()).unwrap_or(0)));
             run.violation(&class, &e.what, e.witness);
             for _ in 1..e.count {
-                run.violation(&class, &e.what, Value::Null);
+                run.violation(&class, &e.what, filler.clone());
             }
         }
         for (_, v) in std::mem::take(&mut self.samples) {
